@@ -1120,3 +1120,13 @@ def c_rotate(eng, st, fr, f, args, site):
         k = (w - k) % w
     nb = tuple(bits[(i - k) % w] for i in range(w))
     return [(st, eng.int_from_bits(st, nb, w, False))]
+
+
+@contract(r"^(std|core)::clone::impls::<impl (std|core)::clone::Clone for (u8|u16|u32|u64|u128|usize|i8|i16|i32|i64|i128|isize|bool|char|f32|f64)>::clone$|^<(u8|u16|u32|u64|u128|usize|i8|i16|i32|i64|i128|isize|bool|char|f32|f64) as (std|core)::clone::Clone>::clone$")
+def c_clone_prim(eng, st, fr, f, args, site):
+    """Clone of a primitive is the value."""
+    v = args[0]
+    if isinstance(v, Ref):
+        v = deref(eng, st, v)
+    v = force(eng, st, v)
+    return [(st, v)] if v is not None else None
